@@ -34,9 +34,9 @@ REQUIRED = [
     "shape:regular", "shape:irregular",
 ]
 RULE = (
-    "hexahedra / planar quadrilaterals from a cube (square) lattice of 1..8 cells: per-axis pre-stretch 1..10, optional "
+    "hexahedra / planar quadrilaterals from a cube (square) lattice of 1..9 cells: per-axis pre-stretch 1..10, optional "
     "shear / taper, node jitter 0 / <=5 / <=15 / <=25 % of the shortest edge (all corner Jacobians > 0, scaled Jacobian "
-    ">= 0.25); base edge 5e3..2e4 so that every size reached by the scale factors 0.1..100 stays >= 250 (guard noise "
+    ">= 0.25); base edge 5e3..2e4, every edge of the generated base >= 2500, so that every size reached by the scale factors 0.1..100 stays >= 250 (guard noise "
     "< 1e-3 per cell). Per single cell ALL 24 (4) rotational renumberings; per assembly 6 rounds of independent "
     "per-cell renumberings; 4-5 maps g (translate, rotate, scale, similarity, similarity of a renumbered assembly); cube -> box "
     "stretch 1.05..10 along each direction for 1 and 2x2x2 cells. non-trivial: renumbering != identity on a cell that is "
@@ -164,6 +164,7 @@ def valid(kind, pts, cells):
 
 
 # ---- generators ------------------------------------------------------------------------------------------
+MIN_BASE_EDGE = 2500.0  # x 0.1 (smallest scale factor) = 250: the size floor the tolerance is derived for
 JITTER = {"none": (0.0, 0.0), "j05": (0.01, 0.05), "j15": (0.05, 0.15), "j25": (0.15, 0.25)}
 
 
@@ -200,7 +201,7 @@ def _shape(rng, kind, dims, shape, jitter):
         for row in pts:
             for a in range(d):
                 row[a] += rng.uniform(-amp, amp)
-    if not valid(kind, pts, cells):
+    if not valid(kind, pts, cells) or min_edge(kind, pts, cells) < MIN_BASE_EDGE:
         return None
     return pts, cells
 
